@@ -157,10 +157,19 @@ var aliasKinds = []string{"alias-same", "alias-dot", "alias-dotdot", "alias-syml
 func isAlias(d string) bool { return strings.HasPrefix(d, "alias-") }
 
 // source paths that are another name of the real file, and destinations naming that real file
-var srcAliasKinds = []string{"symlink", "symlink-chain", "dot", "hardlink"}
+var srcAliasKinds = []string{"symlink", "symlink-chain", "symlink-chain3", "dot", "hardlink"}
 var realAliasKinds = []string{"alias-real", "alias-real-symlink", "alias-real-hardlink"}
 
+// destinations that are an INTERMEDIATE link of the source's own symlink chain
+// (source -> l1 [-> l2] -> file), or a symlink that points into that chain from outside.
+// Renaming the source link onto l1 would leave l1 pointing to itself.
+var midAliasKinds = []string{"alias-mid-link1", "alias-mid-link2", "alias-into-chain"}
+
 func isRealAlias(d string) bool { return strings.HasPrefix(d, "alias-real") }
+
+func isMidAlias(d string) bool {
+	return strings.HasPrefix(d, "alias-mid-") || d == "alias-into-chain"
+}
 
 // moveOntoOwnTarget: MoveFile(symlink, the file the symlink points to) on one file system.
 // rename(2) replaces the file by the link, which then points to itself: the content is gone and
@@ -192,10 +201,19 @@ func applicable(cs Case) bool {
 		// source-side aliasing: the source PATH is another name of the file, the destination is
 		// the file itself (or a further name of it)
 		switch cs.Src {
-		case "symlink", "symlink-chain":
+		case "symlink", "symlink-chain", "symlink-chain3":
 			return true
 		case "dot", "hardlink":
 			return same
+		}
+		return false
+	}
+	if isMidAlias(cs.Dst) {
+		switch cs.Src {
+		case "symlink-chain":
+			return cs.Dst != "alias-mid-link2"
+		case "symlink-chain3":
+			return true
 		}
 		return false
 	}
@@ -549,8 +567,14 @@ func (e *env) build(cs Case) (*layout, error) {
 	// with a destination that names the real file and two file systems, the real file lives on
 	// the destination's file system and the source path is a symlink across
 	realDir := sdir
-	if isRealAlias(cs.Dst) && cs.SrcFS != cs.DstFS {
+	if (isRealAlias(cs.Dst) || isMidAlias(cs.Dst)) && cs.SrcFS != cs.DstFS {
 		realDir = ddir
+	}
+	// the intermediate links of a chain live next to the source link, except when the
+	// destination IS such a link and sits on the other file system
+	linkDir := sdir
+	if isMidAlias(cs.Dst) && cs.SrcFS != cs.DstFS {
+		linkDir = ddir
 	}
 	switch cs.Src {
 	case "present":
@@ -563,8 +587,14 @@ func (e *env) build(cs Case) (*layout, error) {
 	case "symlink-chain": // srcPath -> l1 -> real file
 		real = filepath.Join(realDir, "real.bin")
 		must(os.WriteFile(real, data, 0o644))
-		must(os.Symlink(real, filepath.Join(sdir, "l1")))
-		must(os.Symlink(filepath.Join(sdir, "l1"), l.src)) // absolute: a moved relative link would dangle by itself
+		must(os.Symlink(real, filepath.Join(linkDir, "l1")))
+		must(os.Symlink(filepath.Join(linkDir, "l1"), l.src)) // absolute: a moved relative link would dangle by itself
+	case "symlink-chain3": // srcPath -> l1 -> l2 -> real file, all links absolute
+		real = filepath.Join(realDir, "real.bin")
+		must(os.WriteFile(real, data, 0o644))
+		must(os.Symlink(real, filepath.Join(linkDir, "l2")))
+		must(os.Symlink(filepath.Join(linkDir, "l2"), filepath.Join(linkDir, "l1")))
+		must(os.Symlink(filepath.Join(linkDir, "l1"), l.src))
 	case "dot": // srcPath is a ./-spelling of the real file
 		real = filepath.Join(sdir, "real.bin")
 		must(os.WriteFile(real, data, 0o644))
@@ -663,6 +693,12 @@ func (e *env) build(cs Case) (*layout, error) {
 		}
 		must(os.Symlink(l.src, filepath.Join(od, "hop")))
 		must(os.Symlink(filepath.Join(od, "hop"), l.dst))
+	case "alias-mid-link1": // the first link the source link points to
+		l.dst = filepath.Join(linkDir, "l1")
+	case "alias-mid-link2":
+		l.dst = filepath.Join(linkDir, "l2")
+	case "alias-into-chain": // a symlink from outside onto the first intermediate link
+		must(os.Symlink(filepath.Join(linkDir, "l1"), l.dst))
 	case "alias-real": // the file the source path is another name of
 		l.dst = real
 	case "alias-real-symlink":
@@ -926,7 +962,7 @@ type mon struct{}
 func (mon) Name() string { return "filecopy" }
 
 func (mon) Level(prop string) (string, string) {
-	return "fault_enumeration", "BOTH TIERS: complete product of operation {CopyFile, MoveFile} × source size × source {present, missing, symlink to file} × destination {missing, shorter, longer, directory, parent missing, parent is a file, symlink to another file, dangling symlink, and the source itself as same path / ./ / dir/../ / symlink / relative symlink / hard link / symlink chain / through a directory symlink} × placement {root FS, tmpfs, across both (real EXDEV)}; a name-related family (source named destination+suffix or dot+destination+suffix and the reverse, in one directory, 14 temp/backup suffixes; also with MoveFile forced into its fallback); source-side aliasing (source path = symlink / symlink chain / ./-spelling / hard link of the file, destination = that file, another symlink to it, a hard link of it; both operations, one and – for the symlink kinds – two file systems, also with MoveFile forced into its fallback); sizes above plausible internal limits (2 MiB+1, 4 MiB+3, 8 MiB+1, plain and sparse, missing/existing destination, both operations, real and forced EXDEV); an enumerated list of failing steps inside the call (RLIMIT_FSIZE in a probe process; strace tampering: rename→EXDEV or another errno, copy_file_range/read/write/openat/fstat/unlinkat errors at the k-th call, k∈{1,2}). " +
+	return "fault_enumeration", "BOTH TIERS: complete product of operation {CopyFile, MoveFile} × source size × source {present, missing, symlink to file} × destination {missing, shorter, longer, directory, parent missing, parent is a file, symlink to another file, dangling symlink, and the source itself as same path / ./ / dir/../ / symlink / relative symlink / hard link / symlink chain / through a directory symlink} × placement {root FS, tmpfs, across both (real EXDEV)}; a name-related family (source named destination+suffix or dot+destination+suffix and the reverse, in one directory, 14 temp/backup suffixes; also with MoveFile forced into its fallback); source-side aliasing (source path = symlink / 2- and 3-link symlink chain / ./-spelling / hard link of the file, destination = that file, another symlink to it, a hard link of it, each INTERMEDIATE link of the source's own chain, or a symlink pointing into that chain from outside (all links absolute); both operations, one and – for the symlink kinds – two file systems, also with MoveFile forced into its fallback); sizes above plausible internal limits (2 MiB+1, 4 MiB+3, 8 MiB+1, plain and sparse, missing/existing destination, both operations, real and forced EXDEV); an enumerated list of failing steps inside the call (RLIMIT_FSIZE in a probe process; strace tampering: rename→EXDEV or another errno, copy_file_range/read/write/openat/fstat/unlinkat errors at the k-th call, k∈{1,2}). " +
 		"THOROUGH ADDS (deep.go): every size 0..64, ±1 around 4 KiB / 32 KiB / 64 KiB / 1 MiB, 2–32 MiB and sparse sources; sources that are hard-linked or a symlink onto the other file system; destinations of equal length, same content, read-only, non-empty directory, symlink to a directory, symlink loop, symlink chain to another file, symlink to a (missing) file on the other file system, symlink→hard link and symlink→other-FS symlink→source aliases – each for both operations and all four placements; awkward names (spaces, unicode, newline, 250 bytes, leading dashes, shell metacharacters) and path spellings (trailing slash, dir/../dir, //, /./ on either side); a fault sweep that first lists the syscalls of a call on the two paths (strace -P) and then fails EVERY occurrence of each (openat, fstat, newfstatat, copy_file_range, read, write, rename*, unlinkat, …) with each of ENOSPC/EIO/EINTR/EDQUOT (the random shards add EACCES/EMFILE/ENOMEM/EROFS/EBUSY), for copy_file_range and for the read/write fallback; RLIMIT_FSIZE at byte 0, 1, size/3, page and buffer boundaries, size-1, size, size+1 (with copy_file_range disabled this yields genuine short write(2) counts); MoveFile forced into its fallback over every source and destination state; 2/8/32 concurrent calls on distinct files in shared directories; seeded random combinations of all dimensions including faults. " +
 		"Never handed to the code under test: device nodes, FIFOs or any path outside the monitor's own temp dirs. Judged by SHA-256+length snapshots before/after; distinct_nontrivial = distinct (op, size, source, destination, placement, name relation/style/spelling, fault, concurrency) tuples with a source present that were really executed"
 }
@@ -1070,7 +1106,7 @@ func srcAliasCases(tier string, a shardArgs, forced bool) []Case {
 	for _, op := range ops {
 		for _, size := range sizes {
 			for _, src := range srcAliasKinds {
-				for _, dst := range realAliasKinds {
+				for _, dst := range append(append([]string{}, realAliasKinds...), midAliasKinds...) {
 					cs := Case{Op: op, Size: size, SrcFS: a.SrcFS, DstFS: a.DstFS, Src: src, Dst: dst}
 					if forced {
 						cs.Fault = &Fault{RenameErr: "EXDEV"}
@@ -1449,8 +1485,11 @@ func (mon) record(c *drv.Ctx, cs Case, oc *outcome, deep bool) {
 	if cs.Rel != "" {
 		c.Add("name_related_calls", 1)
 	}
-	if isRealAlias(cs.Dst) {
+	if isRealAlias(cs.Dst) || isMidAlias(cs.Dst) {
 		c.Add("source_side_alias_calls", 1)
+	}
+	if isMidAlias(cs.Dst) {
+		c.Add("destination_is_intermediate_link_of_source_chain_calls", 1)
 	}
 	if oc.outside != "" {
 		c.Add("move_of_symlink_onto_its_own_target_lost_content(outside_quantifier,not_judged)", 1)
